@@ -7,7 +7,33 @@ package verifsim
 import (
 	"fmt"
 	"sort"
+	"time"
 )
+
+// NowHook, when non-nil, is the wall clock of the library: every time.Now,
+// time.Since and time.Until inside package cose is routed here by the
+// instrumenter.  (The pinned go-cose reads no clock at all; the seam exists so
+// that a change which starts to would read the simulator's clock, not the
+// machine's.)
+var NowHook func() time.Time
+
+// ClockReads counts the reads of the clock by package cose.
+var ClockReads uint64
+
+// Now replaces time.Now inside package cose.
+func Now() time.Time {
+	ClockReads++
+	if h := NowHook; h != nil {
+		return h()
+	}
+	return time.Now()
+}
+
+// Since replaces time.Since inside package cose.
+func Since(t time.Time) time.Duration { return Now().Sub(t) }
+
+// Until replaces time.Until inside package cose.
+func Until(t time.Time) time.Duration { return t.Sub(Now()) }
 
 // YieldHook, when non-nil, is called at every yield site.  It is set by the
 // simulator before tasks are started and cleared after they are joined.
